@@ -666,6 +666,7 @@ func c16L2(c *ctxT, rng *rand.Rand, idx int) {
 		cloud.plan = append(cloud.plan, faults[rng.Intn(len(faults))])
 	}
 	bo := wait.Backoff{Duration: time.Millisecond, Factor: 1, Steps: 1 + rng.Intn(3)}
+	v2 := rng.Intn(2) == 0
 	call := func(ctx context.Context) error {
 		// options rebuilt from fresh maps on every logical retry
 		nio := &client.NetworkInterfaceOptions{Trunk: p.Trunk, ERDMA: p.ERDMA, VSwitchID: p.VSW, SecurityGroupIDs: append([]string(nil), p.SGs...), ResourceGroupID: p.RG,
@@ -689,9 +690,18 @@ func c16L2(c *ctxT, rng *rand.Rand, idx int) {
 			case "create":
 				_, err = api.CreateNetworkInterface(ctx, &client.CreateNetworkInterfaceOptions{NetworkInterfaceOptions: nio, Backoff: &b})
 			case "assign4":
-				_, err = api.AssignPrivateIPAddress(ctx, &client.AssignPrivateIPAddressOptions{NetworkInterfaceOptions: nio, Backoff: &b})
+				// both generations of the call are in use (node agent: the first, controllers: the second)
+				if v2 {
+					_, err = api.AssignPrivateIPAddress2(ctx, &client.AssignPrivateIPAddressOptions{NetworkInterfaceOptions: nio, Backoff: &b})
+				} else {
+					_, err = api.AssignPrivateIPAddress(ctx, &client.AssignPrivateIPAddressOptions{NetworkInterfaceOptions: nio, Backoff: &b})
+				}
 			case "assign6":
-				_, err = api.AssignIpv6Addresses(ctx, &client.AssignIPv6AddressesOptions{NetworkInterfaceOptions: nio, Backoff: &b})
+				if v2 {
+					_, err = api.AssignIpv6Addresses2(ctx, &client.AssignIPv6AddressesOptions{NetworkInterfaceOptions: nio, Backoff: &b})
+				} else {
+					_, err = api.AssignIpv6Addresses(ctx, &client.AssignIPv6AddressesOptions{NetworkInterfaceOptions: nio, Backoff: &b})
+				}
 			case "create-eflo":
 				_, err = api.CreateElasticNetworkInterfaceV2(ctx, &client.CreateNetworkInterfaceOptions{NetworkInterfaceOptions: nio, Backoff: &b})
 			case "assign-eflo":
@@ -703,6 +713,29 @@ func c16L2(c *ctxT, rng *rand.Rand, idx int) {
 	ok := false
 	attempts := 0
 	var lastErr error
+	if rng.Intn(4) == 0 {
+		// the first attempt is turned down by the client-side rate limiter (bucket empty, deadline shorter than the
+		// refill): nothing reaches the wire, its token is handed back once
+		lim := client.LimitConfig{}
+		for _, name := range []string{client.APICreateNetworkInterface, client.APIAssignPrivateIPAddress, client.APIAssignIPv6Addresses, client.APICreateElasticNetworkInterface, client.APIAssignLeniPrivateIPAddress} {
+			lim[name] = client.Limit{QPS: 100, Burst: 1}
+		}
+		api.RateLimiter = client.NewRateLimiter(lim)
+		for name := range lim {
+			_ = api.RateLimiter.Wait(context.Background(), name)
+		}
+		sctx, scancel := context.WithTimeout(context.Background(), 2*time.Millisecond)
+		if e := call(sctx); e != nil {
+			r.Count("l2_attempts_refused_by_client_rate_limiter", 1)
+		} else {
+			// (AssignIpv6Addresses / AssignIpv6Addresses2 test the wrong error variable after the limiter and send the
+			// request anyway; not a token matter: the attempt simply counts as the successful one)
+			ok = true
+			r.Count("l2_attempts_sent_despite_rate_limiter_refusal", 1)
+		}
+		attempts++
+		scancel()
+	}
 	for try := 0; try < 12 && !ok; try++ {
 		ctx := context.Background()
 		if lastErr = call(ctx); lastErr == nil {
